@@ -309,12 +309,26 @@ def construction_obligations(rep, tier):
             "subcomponent.add('TZNAME', tzname)", "subcomponent.DTSTART = first_start", "if starts:\n    subcomponent.add('RDATE', starts)",
             "tz.add_component(subcomponent)", "return tz"]
     miss = [n for n in need if n not in flat]
+    # ... and the tail must be EXACTLY the statement list these statements were read from (an added statement that rewrites an offset or a
+    # start afterwards must not pass)
+    exact_tail = ['tz = cls()', "tz.add('TZID', tzid)", "tz.add('COMMENT', f'This timezone only works from {first_date} to {last_date}.')",
+                  "for (offset_from, offset_to, tzname, is_standard), starts in offsets.items():\n    first_start = min(starts)\n"
+                  "    starts.remove(first_start)\n    if first_start.date() == last_date:\n"
+                  "        first_start = datetime(last_date.year, last_date.month, last_date.day)\n"
+                  "    subcomponent = TimezoneStandard() if is_standard else TimezoneDaylight()\n    if offset_from is None:\n"
+                  "        offset_from = offset_to\n    subcomponent.TZOFFSETFROM = offset_from\n    subcomponent.TZOFFSETTO = offset_to\n"
+                  "    subcomponent.add('TZNAME', tzname)\n    subcomponent.DTSTART = first_start\n    if starts:\n"
+                  "        subcomponent.add('RDATE', starts)\n    tz.add_component(subcomponent)", 'return tz']
+    tail_changed = tail != exact_tail
     ob = ob_from(f"{PID}.W.every_observance_gets_DTSTART_TZOFFSETFROM_TZOFFSETTO_TZNAME_and_the_component_TZID", fn, source.lines_of(node),
                  PROVED if not miss else REFUTED,
                  "construction loop: one STANDARD / DAYLIGHT per recorded key with the four properties, further starts as RDATE; TZID on the component"
                  if not miss else f"statement shape changed: missing {miss[0]!r}", backend="fin")
     if miss:
         ob.shape_only = True
+    elif tail_changed:
+        ob.status = UNDECIDED
+        ob.detail = "the construction tail of from_tzinfo is no longer the statement list this obligation was read from: the single statements prove nothing then"
     obs = [ob]
     mod, n2 = source.find("cal:Timezone.from_tzid")
     got = [ast.unparse(x) for x in source.strip_docstring(n2.body)] if n2 is not None else []
